@@ -39,6 +39,8 @@ fn bounds(tier: Tier) -> Vec<(Fam, u8, Vec<RCfg>, usize, usize)> {
             (Fam::Txt, 0, vec![rc(1, true), rc(2, true)], 3, 0),
             (Fam::Txt, 0, vec![rc(1, true)], 4, 0),
             (Fam::Map, 1, vec![rc(1, true), rc(2, false)], 3, 0),
+            // collected subtrees: GC ranges of several units inside the payloads (a state vector may fall inside one)
+            (Fam::Nest, 0, vec![rc(1, true)], 3, 0),
         ],
         Tier::Thorough => vec![
             (Fam::Txt, 1, vec![rc(1, true), rc(2, true)], 3, 1),
